@@ -262,3 +262,26 @@ Print Assumptions bch_p2sh_dec_enc.
 Example hrp_wf_example : hrp_wf [116; 98; 49].    (* "tb1": an HRP may contain the separator character *)
 Proof. split; [discriminate|]. repeat constructor; try (apply N.leb_le; reflexivity); intros [A B]; apply N.leb_le in A, B; vm_compute in A, B; discriminate. Qed.
 Print Assumptions hrp_wf_example.
+
+(* ===== linked to the concrete codec models ===== *)
+(* Stellar: [xlm_dec_enc] above carries "hash_ok crc16 2" about an abstract checksum function although
+   CRC-16/XMODEM is pure arithmetic.  Model/LinkCrc16.v models it (bit by bit, polynomial 0x1021, as crcmod's
+   "xmodem"); its two laws are theorems for every input, so the Stellar round trip has no hypothesis left about
+   the checksum -- only the ed25519 key test remains an oracle.  (The other pipelines of this property were already
+   on the concrete codecs; BIP-38's use of the P2PKH encoder is linked in Props/C13.v, the Electrum / SPL uses of
+   P2PKH, P2WPKH and SolAddrDecoder in Props/C20.v, the Substrate wallet's use of SS58 in Props/C19.v.) *)
+From BU Require Import Model.LinkCrc16.
+From BU Require Lemmas.LinkCrc16.
+
+Theorem crc16_xmodem_laws : hash_ok crc16_xmodem 2 /\
+  crc16_xmodem [49; 50; 51; 52; 53; 54; 55; 56; 57] = [49; 195].           (* the catalogue check value 0x31C3 *)
+Proof.
+  exact (conj (conj Lemmas.LinkCrc16.crc16_xmodem_len Lemmas.LinkCrc16.crc16_xmodem_ok) Lemmas.LinkCrc16.crc16_check_value).
+Qed.
+Print Assumptions crc16_xmodem_laws.
+
+Theorem xlm_dec_enc_concrete : forall valid_pub t pub s, t < 256 ->
+  bytes_ok pub -> length pub = (ed25519_compr_len - 1)%nat -> valid_pub 2 pub = true ->
+  xlm_encode crc16_xmodem b32e t pub = Ok s -> xlm_decode valid_pub crc16_xmodem b32d t s = Ok pub.
+Proof. exact Lemmas.LinkCrc16.xlm_rt_c. Qed.
+Print Assumptions xlm_dec_enc_concrete.
